@@ -11,19 +11,22 @@
    Tree/InvProofs.v are used, not assumed); Recursible = elements with sub-elements do not have character content
    mode (C07).
    Known10 = finding classes with witnesses below (add_to_file with a removed file; the root loses the last file of its
-   own set; a moved element keeps its local sets).  Unowned = remove_file of a file whose own model link names another
-   model (not reachable through the API, excluded).  Pending10 = OpMove, OpMoveAt (and OpRemoveFile of the last file
-   for table sets whose root type is a named type: none exists): not proved, covered by the correspondence and the
-   oracle only.
+   own set; a moved element keeps local sets in its subtree).  Unowned = remove_file of a file whose own model link
+   names another model (not reachable through the API, excluded).  RootNamedLast = remove_file of the LAST file in a
+   table set whose root element type is a named type (a removal of a SHORT-NAME child of the root could fail; no real
+   table set has such a root): excluded.  All 26 constructors of Script.v's `op` are covered.
    [U] C10_eff_is_file_membership, C10_eff_executable, C10_eff_unique, C10_filter_is_eff, C10_ser_visits,
-       C10_projection_closed, C10_nothing_lost, C10_add_to_file, C10_create_file, C10_remove_from_file, C10_remove_last_file,
-       C10_frame_transfer (every operation that never writes a file set)
-   [P] C10_inv_partial, C10_history_partial, C10_reachable_partial, C10_remove_file_partial + C10_remove_file_keeps (another file
-       remains; that every element of the removed file alone is deleted is checked by the oracle only), C10_self_contained (reduced to the XML layer)
+       C10_projection_closed, C10_nothing_lost, C10_frame_transfer (operations that never write a file set),
+       C10_move_transfer, C10_add_to_file, C10_create_file, C10_remove_from_file, C10_remove_file_partial,
+       C10_remove_file_keeps, C10_remove_last_file, C10_inv, C10_history, C10_reachable
+   [P] C10_remove_file_partial + C10_remove_file_keeps are one half of "removes exactly": that every element attributed
+       to the removed file alone is deleted fails in the model exactly when a deletion fails (finding
+       C10-shortname-own-file-set) and is checked on the implementation by the oracle; C10_self_contained is reduced
+       to the XML layer (C01 / C07) and checked by the oracle (every file text is re-loaded)
    [F] C10_add_foreign_refuted, C10_root_last_refuted, C10_root_last_remove_file_refuted, C10_move_local_refuted
        (vm_compute on the tiny table set of Tree/Files.v). *)
 From AV Require Import Base.Bytes Base.Outcome Hash.HashModel Tree.Heap Tree.Ops Tree.Script Tree.Serialize Tree.Inv.
-From AV Require Import Tree.Files Tree.FilesProofsProj Tree.FilesProofsFrame Tree.FilesProofsAdd Tree.FilesProofsRemove Tree.FilesProofsExact Tree.FilesProofsLast
+From AV Require Import Tree.Files Tree.FilesProofsProj Tree.FilesProofsFrame Tree.FilesProofsAdd Tree.FilesProofsRemove Tree.FilesProofsExact Tree.FilesProofsLast Tree.FilesProofsMove
   Tree.FilesProofsInv Tree.FilesProofsHist Tree.FilesProofsTop.
 Open Scope list_scope.
 Open Scope N_scope.
@@ -74,6 +77,13 @@ Theorem C10_frame_transfer :
   forall (T : tables) (w w' : world), TreeInv w -> Core w' -> Frame w w' -> FilesInv T w -> FilesInv T w'.
 Proof. exact frame_transfer. Qed.
 
+(* move_element_here / _at change no file set and re-parent only the moved element: the invariant is inherited when
+   no element below the moved one carries a local set *)
+Theorem C10_move_transfer :
+  forall (T : tables) (mv : id) (w w' : world), TreeInv w -> Core w' -> MoveRel mv w w' -> FilesInv T w ->
+  (forall y n, Reach w mv y -> w_nodes w y = Some n -> n_files n = []) -> FilesInv T w'.
+Proof. exact move_transfer. Qed.
+
 Theorem C10_add_to_file :
   forall (T : tables) (e f : N) (w : world) (r : out unit) (w' : world),
   TreeInv w -> FilesInv T w -> Known_add_foreign w (OpAddToFile e f) = false ->
@@ -121,14 +131,14 @@ Theorem C10_remove_last_file :
   m_remove_file T m f w = Val (r, w') -> FilesInv T w'.
 Proof. exact remove_file_last_inv. Qed.
 
-Theorem C10_inv_partial :
+Theorem C10_inv :
   forall (T : tables) (tab_el tab_en : nametab) (check_fn : N -> list N -> res bool) (LATEST : N)
          (root_attrs : list (N * cdata)) (o : op) (w : world) (r : out value) (w' : world),
-  TreeInv w -> FilesInv T w -> Pending10 T w o = false -> Known10 w o = false -> Unowned w o = false ->
+  TreeInv w -> FilesInv T w -> RootNamedLast T w o = false -> Known10 w o = false -> Unowned w o = false ->
   run_op T tab_el tab_en check_fn LATEST root_attrs o w = Val (r, w') -> FilesInv T w'.
 Proof. exact inv_step_all. Qed.
 
-Theorem C10_history_partial :
+Theorem C10_history :
   forall (T : tables) (tab_el tab_en : nametab) (check_fn : N -> list N -> res bool) (LATEST : N)
          (root_attrs : list (N * cdata)) (l : list op) (w w' : world),
   TreeInv w -> FilesInv T w ->
@@ -137,8 +147,8 @@ Theorem C10_history_partial :
 Proof. exact inv_histories_all. Qed.
 
 (* closed form: every state reached from the empty world by a history whose steps avoid C03's Known classes and
-   Known10 / Pending10 / Unowned (a decidable condition on the history) *)
-Theorem C10_reachable_partial :
+   Known10 / RootNamedLast / Unowned (a decidable condition on the history) *)
+Theorem C10_reachable :
   forall (T : tables) (tab_el tab_en : nametab) (check_fn : N -> list N -> res bool) (LATEST : N)
          (root_attrs : list (N * cdata)) (l : list op) (w' : world),
   steps_ok T tab_el tab_en check_fn LATEST root_attrs l empty_world = true ->
